@@ -307,7 +307,7 @@ Print Assumptions C09_failed_flush_changes_no_answer.
 (* with any number of shared layers above: no step other than a write — the failing flush included — changes the one map,
    and Get / Seek (any depth) through the top answer like it before, during and after the failed flush *)
 Theorem C09_fail_step_flat : forall s a, fwf s ->
-  match a with FW _ | FWTop _ _ => True | _ => f_flat (fstep s a) = f_flat s end.
+  match a with FW _ | FWTop _ _ | FWLow _ => True | _ => f_flat (fstep s a) = f_flat s end.
 Proof. exact fail_step_flat. Qed.
 Print Assumptions C09_fail_step_flat.
 
